@@ -171,3 +171,24 @@ impl<I: Interner> Table<I> {
 impl AnswerIndex {
     pub(crate) const ZERO: AnswerIndex = AnswerIndex { value: 0 };
 }
+
+/// Verification hook (add-only; compiled only with `--cfg chalk_verif`).
+#[cfg(chalk_verif)]
+impl<I: Interner> Table<I> {
+    /// `(floundered, per stored answer: (substitution, ambiguous, has delayed subgoals))`
+    pub(crate) fn verif_dump(&self) -> (bool, Vec<(Canonical<AnswerSubst<I>>, bool, bool)>) {
+        (
+            self.floundered,
+            self.answers
+                .iter()
+                .map(|a| {
+                    (
+                        a.subst.clone(),
+                        a.ambiguous,
+                        !a.subst.value.delayed_subgoals.is_empty(),
+                    )
+                })
+                .collect(),
+        )
+    }
+}
